@@ -355,6 +355,7 @@ fn child_par(case: &ParCase) -> Value {
     install_panic_hook();
     let n = case.progs.len();
     let k = case.modules.len();
+    let t_solo = std::time::Instant::now();
     // ---- solo reference: the same programs, one after the other (producers before their
     // consumers), each on its own sibling thread of a second VM
     let _ = take_counts(MAXMOD);
@@ -386,6 +387,10 @@ fn child_par(case: &ParCase) -> Value {
         Ok(x) => x,
         Err(e) => return json!({"setup_error": e}),
     };
+    // The machine may be heavily loaded: the sequential phase (VM creation + the same programs one
+    // after the other) measures how slow it is right now; the parallel phase does the same work, so
+    // if it takes more than 25x that (and more than 20 s) nothing is moving any more.
+    let hang_after = Duration::from_secs(20).max(t_solo.elapsed() * 25);
     let chans = Arc::new(chans);
     let prod_done: Arc<Vec<AtomicBool>> = Arc::new((0..case.nchan).map(|_| AtomicBool::new(false)).collect());
     let barrier = Arc::new(Barrier::new(n + 1 + case.collector as usize));
@@ -442,6 +447,19 @@ fn child_par(case: &ParCase) -> Value {
         None
     };
     barrier.wait();
+    let t_par = std::time::Instant::now();
+    while !handles.iter().all(|h| h.is_finished()) {
+        if t_par.elapsed() > hang_after {
+            // report and leave: the stuck OS threads cannot be joined
+            println!(
+                "{}",
+                json!({"hang": true, "waited_ms": t_par.elapsed().as_millis() as u64,
+                       "finished": handles.iter().filter(|h| h.is_finished()).count()})
+            );
+            std::process::exit(0);
+        }
+        std::thread::sleep(Duration::from_millis(5));
+    }
     let par: Vec<String> = handles
         .into_iter()
         .map(|h| h.join().unwrap_or_else(|_| "panic:os_thread".into()))
@@ -544,9 +562,10 @@ fn child_locks(v: &Value) -> Value {
     let n = steps.len();
     let barrier = Arc::new(Barrier::new(n));
     let pending = Arc::new(AtomicU64::new(n as u64));
+    let progress: Arc<Vec<AtomicU64>> = Arc::new((0..n).map(|_| AtomicU64::new(0)).collect());
     let mut hs = vec![];
-    for (mut step, min, max) in steps {
-        let (barrier, pending) = (barrier.clone(), pending.clone());
+    for (j, (mut step, min, max)) in steps.into_iter().enumerate() {
+        let (barrier, pending, progress) = (barrier.clone(), pending.clone(), progress.clone());
         hs.push(std::thread::spawn(move || {
             barrier.wait();
             let t0 = std::time::Instant::now();
@@ -559,6 +578,7 @@ fn child_locks(v: &Value) -> Value {
                     std::thread::yield_now();
                 }
                 k += 1;
+                progress[j].store(k, Ordering::Relaxed);
                 if !done_min && k >= min {
                     done_min = true;
                     pending.fetch_sub(1, Ordering::SeqCst);
@@ -575,13 +595,30 @@ fn child_locks(v: &Value) -> Value {
             }
         }));
     }
+    // Deadlock = some thread is unfinished and NO thread has completed a single repetition for
+    // `stall` (a repetition takes micro- to milliseconds; on a heavily loaded machine everything is
+    // slow but still moves, so slowness is never mistaken for a deadlock).
+    let stall = Duration::from_millis(v["stall_ms"].as_u64().unwrap_or(4000));
+    let mut last: Vec<u64> = vec![0; n];
+    let mut last_change = std::time::Instant::now();
+    while !hs.iter().all(|h| h.is_finished()) {
+        let now: Vec<u64> = progress.iter().map(|p| p.load(Ordering::Relaxed)).collect();
+        if now != last {
+            last = now;
+            last_change = std::time::Instant::now();
+        } else if last_change.elapsed() > stall {
+            println!("{}", json!({"completed": false, "hung": true, "progress": last}));
+            std::process::exit(0);
+        }
+        std::thread::sleep(Duration::from_millis(20));
+    }
     let mut panicked = false;
     for h in hs {
         if h.join().is_err() {
             panicked = true;
         }
     }
-    json!({"completed": true, "panicked": panicked})
+    json!({"completed": true, "hung": false, "panicked": panicked})
 }
 
 fn child_main() {
@@ -781,6 +818,13 @@ fn one_par_run(case: &ParCase, cj: &Value, timeout: Duration) -> ParRun {
             if let Some(e) = v.get("setup_error") {
                 eprintln!("c14: setup error: {}", e);
                 std::process::exit(3);
+            }
+            if v.get("hang").is_some() {
+                failures.push((
+                    format!("deadlock:parallel-run{}", flags),
+                    format!("{} OS threads: {} finished, the others made no end after {} ms (= 25x the time the same programs took one after the other; the schedule is not reproducible, re-run the case several times)", n, v["finished"], v["waited_ms"]),
+                ));
+                return ParRun { payload: "(hang)".to_string(), class: "hang".to_string(), failures, collections: 0 };
             }
             let strs = |x: &Value| -> Vec<String> {
                 x.as_array().unwrap().iter().map(|s| s.as_str().unwrap().to_string()).collect()
@@ -1063,20 +1107,26 @@ fn run_locks(out: &mut Out, nth: usize, ops: &[LOp], iters: u64, timeout: Durati
     let attempts = if may_hang(ops) { 6 } else { 1 };
     let mut ex = gv::child::run(&["--child"], &serde_json::to_vec(&cj).unwrap(), timeout);
     for _ in 1..attempts {
-        if !matches!(ex, gv::child::Exit::Ok(_)) {
+        let no_hang = matches!(&ex, gv::child::Exit::Ok(o) if !o.contains("\"hung\":true"));
+        if !no_hang {
             break;
         }
         out.count("locks-rerun-no-hang-yet");
         ex = gv::child::run(&["--child"], &serde_json::to_vec(&cj).unwrap(), timeout);
     }
+    let hung = |e: &gv::child::Exit| match e {
+        gv::child::Exit::Ok(o) => o.contains("\"hung\":true"),
+        gv::child::Exit::Timeout(_) => true,
+        _ => false,
+    };
     let payload = match &ex {
-        gv::child::Exit::Ok(o) => {
+        gv::child::Exit::Ok(o) if !hung(&ex) => {
             if o.contains("\"panicked\":true") {
                 out.oracle_fail("panic:lock-scenario", &format!("an OS thread panicked in {:?}", ops), cj.clone());
             }
             "(deadlock false)".to_string()
         }
-        gv::child::Exit::Timeout(_) => {
+        gv::child::Exit::Ok(_) | gv::child::Exit::Timeout(_) => {
             out.oracle_fail(
                 &lock_fingerprint(ops),
                 &format!("OS threads repeating {:?} on threads of one VM (0 = root, others its children) never finish", ops),
@@ -1102,8 +1152,9 @@ fn run_locks(out: &mut Out, nth: usize, ops: &[LOp], iters: u64, timeout: Durati
         }
     };
     out.count("kind:locks");
-    out.count(&format!("locks-outcome:{}", ex.class()));
-    out.class(format!("locks:{:?}:{}", ops, ex.class()));
+    let oc = if payload == "(deadlock true)" { "hang".to_string() } else { ex.class() };
+    out.count(&format!("locks-outcome:{}", oc));
+    out.class(format!("locks:{:?}:{}", ops, oc));
     if ops.len() >= 2 && out.samples.len() < 3 {
         out.sample(json!({"case": cj, "impl": payload}));
     }
@@ -1118,8 +1169,9 @@ fn main() {
     let args = Args::parse();
     let mut out = Out::new(&args.out);
     let thorough = args.thorough();
-    let par_timeout = Duration::from_secs(if thorough { 60 } else { 30 });
-    let lock_timeout = Duration::from_secs(if thorough { 15 } else { 10 });
+    // backstops: the children detect hangs themselves (adaptively); see child_par / child_locks
+    let par_timeout = Duration::from_secs(600);
+    let lock_timeout = Duration::from_secs(180);
 
     if let Some(rp) = &args.replay {
         let v: Value = serde_json::from_str(&std::fs::read_to_string(rp).unwrap()).unwrap();
